@@ -1,2 +1,433 @@
+"""Checks decided on the compiled runtime: C01, C07, C08, C09, the compiled halves of C06 and C13."""
+import json
+import os
+import random
+import re
+
+from .. import common, gen, tlc
+from . import engine
+from .asyncchecks import _graphs, _hist_run, _hist_step
+
+ALL_MODES = [["mcs", True], ["mcs", False], ["gen", True], ["gen", False], ["topo", True], ["topo", False]]
+
+RUN_CLAUSE_PROPS = {
+    "ExactlyOnce_Seq": {"C06", "C07"}, "ExactlyOnce_MissingExecution": {"C06"}, "ExactlyOnce_WrongStep": {"C06", "C07"},
+    "ExactlyOnce_ExtraExecution": {"C06"},
+    "StepEps": {"C09", "C01"}, "StepTs": {"C01", "C07", "C09"}, "StepParams": {"C09", "C01"}, "StepState": {"C01", "C09", "C13"},
+    "StepRng": {"C01", "C09"}, "WindowAsScheduled": {"C01", "C08", "C07"}, "ReadsRing": {"C08", "C01"}, "ScheduledPayload": {"C08", "C01"},
+    "StepOutput": {"C01", "C09"}, "SupervisorStepOfPartition": {"C09", "C07"},
+    "MatchesAsync_Ts": {"C01"}, "MatchesAsync_State": {"C01"}, "MatchesAsync_Rng": {"C01"}, "MatchesAsync_Window": {"C01"},
+    "MatchesAsync_Output": {"C01"},
+    "FinalStepCounter": {"C09"}, "FinalNodeState": {"C09"}, "FinalSeq": {"C09"},
+    "RecordRow": {"C13"}, "RecordNeverExecutedRow": {"C13"},
+}
+SCHED_CLAUSE_PROPS = {
+    "VertexExists": {"C07"}, "EachVertexOnce": {"C07", "C06"}, "InSeqOrder": {"C07"}, "CarriesOwnTimes": {"C07"}, "CarriesOwnWindow": {"C07"},
+    "ProducersFirst": {"C07"}, "SameKindTwiceInGeneration": {"C07"}, "SupClosesPartition": {"C07"}, "RequiredExecuted": {"C07"},
+    "BufferHoldsScheduledMessage": {"C08"},
+}
+
+
+def _rec_cfgs(seed, n, **kw):
+    return _graphs(seed, n, **kw)
+
+
+def _gen_cfgs(seed, n):
+    return _graphs(seed, n, allow_blocking=False, allow_buffer=False, allow_advance=False, allow_phase_sched=False)
+
+
+def _collect(rep, results, key):
+    out = []
+    for res in results:
+        job = res["job"]
+        if not res.get("ok"):
+            if res.get("timeout"):
+                rep.note(f"job {job.get('id')} exceeded its wall-clock budget (skipped)")
+                continue
+            raise common.MachineryError(f"job {job.get('id')} failed:\n{res.get('error', '')[-3000:]}")
+        for t in res.get(key, []):
+            out.append((job, res, t))
+    return out
+
+
+def _judge(rep, items, module, table, mine, kind):
+    traces = [t for _, _, t in items]
+    vs, st = engine.validate_parallel(traces, module=module)
+    rep.add_tlc(st)
+    rep.cov["traces_validated_against_impl"] += len(traces)
+    rep.cov["evaluations"] += len(traces)
+    for (job, res, t), v in zip(items, vs):
+        if v["verdict"] == "accept":
+            continue
+        props = table.get(v["clause"], set())
+        if props & mine:
+            rep.violation(dict(clause=v["clause"], kind=kind),
+                          dict(kind=kind, job={k: job[k] for k in job if k not in ("runs", "histories")}, trace_id=t["id"], verdict=v),
+                          text=f"{kind} trace {t['id']} rejected by {module} clause {v['clause']}: {v['detail'][:700]}")
+        else:
+            rep.note(f"{kind} trace {t['id']} rejected by clause {v['clause']} which belongs to {sorted(props)}; not examined further here")
+    return vs
+
+
+# ------------------------------------------------------------------------------------------------
+def _static_jobs(seed, n_rec, n_gen, modes_rec, modes_gen, tag):
+    jobs = []
+    for i, cfg in enumerate(_rec_cfgs(seed + 700, n_rec)):
+        rng = random.Random(seed + i)
+        jobs.append(dict(kind="pyfunc", module="harness.compiled_jobs", func="static_job", id=f"{tag}rec{i}", cfg=cfg, seed=seed + i, source="record",
+                         histories=[_hist_step(rng.randint(4, 8)), _hist_run(rng.randint(3, 8)), _hist_step(rng.randint(3, 5))][: rng.choice([2, 3])],
+                         modes=modes_rec(i), timeout=1500))
+    for i, cfg in enumerate(_gen_cfgs(seed + 750, n_gen)):
+        rng = random.Random(seed + 50 + i)
+        jobs.append(dict(kind="pyfunc", module="harness.compiled_jobs", func="static_job", id=f"{tag}gen{i}", cfg=cfg, seed=seed + i, source="generate",
+                         ts_max=rng.choice([32, 48, 64, 96]), num_episodes=rng.choice([1, 2, 3]), modes=modes_gen(i), timeout=1500))
+    return jobs
+
+
+def c07(tier, seed):
+    rep = common.Report("C07", tier, seed)
+    quick = tier == "quick"
+
+    def modes_rec(i):
+        if quick:
+            return [ALL_MODES[(2 * i) % 6] + [{}], ALL_MODES[(2 * i + 3) % 6] + [{}], ["mcs", bool(i % 2), {"s_init": True}]]
+        return [m + [{}] for m in ALL_MODES] + [["mcs", True, {"s_init": True}], ["mcs", False, {"s_init": True}]]
+
+    def modes_gen(i):
+        if quick:
+            return [ALL_MODES[(2 * i + 1) % 6] + [{}], ALL_MODES[(2 * i + 4) % 6] + [{}]]
+        return [m + [{}] for m in ALL_MODES]
+
+    jobs = _static_jobs(seed, 4 if quick else 24, 4 if quick else 24, modes_rec, modes_gen, "c07")
+    results = common.run_jobs(jobs, timeout=1800)
+    items = _collect(rep, results, "traces")
+    vs = _judge(rep, items, "RexSchedule", SCHED_CLAUSE_PROPS, {"C07"}, "schedule")
+    metas = [m for res in results if res.get("ok") for m in res.get("meta", [])]
+    fc = {}
+    for (job, res, t), v, m in zip(items, vs, metas):
+        if v["verdict"] == "accept" and set(m["features"]) & {"multi_rate", "partially_filled_window", "multi_message_step", "prune_off"}:
+            rep.nontrivial(t["id"])
+        rep.sample(dict(trace=t["id"], mode=m["mode"], prune=m["prune"], partitions=m["H"], slots_run=m["slots"], vertices=m["nverts"], buffer=m["buf"],
+                        features=m["features"], verdict=v["verdict"]))
+        for f in m["features"]:
+            fc[f] = fc.get(f, 0) + 1
+    rep.cov["rule"] = ("real rex.graph.Graph instances built from recorded (threaded runtime, ragged multi-episode) and generated computation graphs, "
+                       "3 supergraph modes x prune on/off x user-supplied S_init; each episode's public Graph.timings is replayed by RexSchedule "
+                       "against the raw graph: EachVertexOnce, InSeqOrder, ProducersFirst, SupClosesPartition, CarriesOwnTimes, CarriesOwnWindow "
+                       "(WindowOf is defined in TLA+ from the raw edges), RequiredExecuted. non-trivial = multi-rate, partially filled windows, "
+                       "multi-message steps or prune off")
+    rep.assumptions += ["the external supergraph library is not trusted: its output is judged per instance",
+                        "vertices scheduled beyond the required set are allowed; duplicates and order violations are not"]
+    return rep.finish(dict(feature_counts=fc))
+
+
+def _run_jobs_for(seed, n, tag, runs_of, modes_of, match_async=False, source="record"):
+    jobs = []
+    cfgs = _rec_cfgs(seed + 800, n) if source == "record" else _gen_cfgs(seed + 850, n)
+    for i, cfg in enumerate(cfgs):
+        rng = random.Random(seed + i)
+        job = dict(kind="pyfunc", module="harness.compiled_jobs", func="run_job", id=f"{tag}{i}", cfg=cfg, seed=seed + i, source=source,
+                   match_async=match_async, modes=modes_of(i), runs=runs_of(i, rng), timeout=2400)
+        if source == "record":
+            job["histories"] = [_hist_step(rng.randint(5, 8)), _hist_run(rng.randint(5, 9)), _hist_step(rng.randint(4, 6))][: rng.choice([2, 3])]
+        else:
+            job.update(ts_max=rng.choice([48, 64]), num_episodes=2)
+        jobs.append(job)
+    return jobs
+
+
+def _run_campaign(rep, jobs, mine):
+    results = common.run_jobs(jobs, timeout=2700)
+    st_items = _collect(rep, results, "static")
+    run_items = _collect(rep, results, "runs")
+    _judge(rep, st_items, "RexSchedule", SCHED_CLAUSE_PROPS, mine, "schedule")
+    vs = _judge(rep, run_items, "RexRun", RUN_CLAUSE_PROPS, mine, "run")
+    metas = [m for res in results if res.get("ok") for m in res.get("meta", [])]
+    return results, run_items, vs, metas
+
+
+def c01(tier, seed):
+    rep = common.Report("C01", tier, seed, level="translation_validation")
+    quick = tier == "quick"
+    full = dict(params=True, rng=True, inputs=True, state=True, output=True)
+
+    def runs_of(i, rng):
+        # every recorded episode is re-executed by the compiled runtime (rollout over the whole horizon)
+        return [dict(eps=e, history=["rollout:99"]) for e in range(3)]
+
+    def modes_of(i):
+        if quick:
+            return [ALL_MODES[i % 6] + [{}], ALL_MODES[(i + 3) % 6] + [{}]]
+        return [m + [{}] for m in ALL_MODES]
+
+    jobs = _run_jobs_for(seed + 100, 4 if quick else 32, "c01g", runs_of, modes_of, match_async=True)
+    # the async side of the pair: the same worker validates nothing about the threaded runtime; that is C02-C04's business. Here
+    # the two probe logs are compared step by step (clauses MatchesAsync_*) and the compiled log must be a run of RexRun.
+    results, run_items, vs, metas = _run_campaign(rep, jobs, {"C01"})
+    nprog = 0
+    ncmp = 0
+    for (job, res, t), v, m in zip(run_items, vs, metas):
+        nprog += 1
+        steps = sum(1 for e in t["log"])
+        ncmp += steps
+        if v["verdict"] == "accept" and steps > 0 and "ref" in t:
+            rep.nontrivial(t["id"])
+        rep.sample(dict(trace=t["id"], mode=m["mode"], prune=m["prune"], episode=m["eps"], partitions=m["P"], compiled_steps_compared=steps,
+                        verdict=v["verdict"]))
+    rep.cov["programs"] = nprog
+    rep.cov["disagreements_checked"] = rep.violations
+    rep.cov["steps_compared"] = ncmp
+    rep.cov["rule"] = ("program = (generated node graph, recorded multi-episode experiment, supergraph mode, prune, episode). The episode is recorded "
+                       "on the threaded runtime, converted with ExperimentRecord.to_graph(), compiled, and re-executed (jitted rollout over the horizon) "
+                       "from the same initial per-node rng, params and state; the compiled probe log must be a run of the abstract machine RexRun and "
+                       "equal the threaded runtime's probe log step by step: eps/seq, start time, rng chain position, state hash, input windows (seq, "
+                       "ts_sent, ts_recv, payload; negative sequence numbers identified), output hash")
+    rep.assumptions += ["the threaded side of each pair is validated against RexLaw by C02-C04, not here", "grid time domain"]
+    return rep.finish()
+
+
+def c08(tier, seed):
+    rep = common.Report("C08", tier, seed)
+    quick = tier == "quick"
+
+    def runs_of(i, rng):
+        return [dict(eps=0, history=["rollout:99"]), dict(eps=1, history=["reset"] + ["step"] * 3), dict(eps=0, step0=2, history=["run", "run"])]
+
+    def modes_of(i):
+        pads = [0, 1, 3]
+        ms = [ALL_MODES[(i * 2 + j) % 6] + [{"extra_padding": pads[(i + j) % 3]}] for j in range(2 if quick else 6)]
+        return ms
+
+    jobs = _run_jobs_for(seed + 200, 3 if quick else 20, "c08r", runs_of, modes_of)
+    jobs += _run_jobs_for(seed + 250, 2 if quick else 12, "c08g", runs_of, modes_of, source="generate")
+    results, run_items, vs, metas = _run_campaign(rep, jobs, {"C08"})
+    # user-supplied buffer sizes: every admissible size must work, a size below the minimum must be refused by rex
+    bjobs = []
+    for i, cfg in enumerate(_rec_cfgs(seed + 900, 2 if quick else 10)):
+        bjobs.append(dict(kind="pyfunc", module="harness.compiled_jobs", func="buffer_job", id=f"c08b{i}", cfg=cfg, seed=seed + i, source="record",
+                          histories=[_hist_step(6), _hist_run(6)], timeout=2400))
+    bres = common.run_jobs(bjobs, timeout=2700)
+    st_items = _collect(rep, bres, "static")
+    run_items2 = _collect(rep, bres, "runs")
+    _judge(rep, st_items, "RexSchedule", SCHED_CLAUSE_PROPS, {"C08"}, "schedule")
+    vs2 = _judge(rep, run_items2, "RexRun", RUN_CLAUSE_PROPS, {"C08"}, "run")
+    for res in bres:
+        for c in res.get("checks", []) if res.get("ok") else []:
+            rep.cov["evaluations"] += 1
+            if not c["ok"]:
+                rep.violation(dict(kind=c["kind"]), dict(kind="buffer_sizes", job={k: res["job"][k] for k in ("id", "cfg", "seed")}, check=c),
+                              text=f"{res['job']['id']}: {c}")
+    for (job, res, t), v in list(zip(run_items, vs)) + list(zip(run_items2, vs2)):
+        if v["verdict"] == "accept" and any(b > 1 for b in t["buf"].values()) and len(t["log"]) > 0:
+            rep.nontrivial(t["id"])
+        rep.sample(dict(trace=t["id"], buffer=t["buf"], ops=t["ops"][:8], steps=len(t["log"]), verdict=v["verdict"]))
+    rep.cov["rule"] = ("real compiled executions (rollout / reset+step / run from a later starting step, episodes 0 and 1) with the automatically sized "
+                       "buffers, extra_padding 0/1/3 and user-supplied buffer_sizes (minimum .. minimum+2); every window entry seen by a probe must "
+                       "be what RexRun's ring-buffer machine reads (ReadsRing) and that must be the producer's emission at the scheduled sequence number "
+                       "or the default output for negative entries (ScheduledPayload); statically, RexSchedule replays Graph.timings against the ring "
+                       "sizes (BufferHoldsScheduledMessage). non-trivial = accepted run with some ring size > 1")
+    rep.assumptions += ["window entries whose producer step lies before the starting step of the run are not judged (their ring slot holds the default output)"]
+    return rep.finish()
+
+
+def _api_histories(max_calls, max_ru, step0=0):
+    cfgp = os.path.join(tlc.SPECS, f"RexApi_{max_calls}_{max_ru}_{step0}.cfg")
+    with open(cfgp, "w") as f:
+        f.write(f"SPECIFICATION Spec\nCONSTANTS\n  MaxCalls = {max_calls}\n  MaxRU = {max_ru}\n  Step0 = {step0}\nINVARIANT StepIsPartitionCount\nINVARIANT Emit\nCHECK_DEADLOCK FALSE\n")
+    try:
+        r = tlc.run_tlc("RexApi", cfg=os.path.basename(cfgp), workers=1, timeout=600)
+    finally:
+        os.remove(cfgp)
+    if r["stats"]["invariant_violated"] or r["stats"]["error"]:
+        raise common.MachineryError("RexApi: " + r["out"][-2000:])
+    hs = []
+    for line in r["out"].splitlines():
+        if line.startswith('<<"HIST"'):
+            m = re.match(r'<<"HIST", (<<.*?>>), (<<.*?>>), (\d+)>>$', line.strip())
+            if not m:
+                continue
+            hist = re.findall(r'"([^"]+)"', m.group(1))
+            nf = re.findall(r'"([^"]+)"', m.group(2))
+            if hist:
+                hs.append((hist, nf, step0))
+    return hs, r["stats"]
+
+
+def c09(tier, seed):
+    rep = common.Report("C09", tier, seed)
+    quick = tier == "quick"
+    hs, st = _api_histories(3 if quick else 4, 4, 0)
+    rep.add_tlc(st)
+    hs2, st2 = _api_histories(2, 3, 1)
+    rep.add_tlc(st2)
+    rep.cov["model_runs"] = [dict(module="RexApi", histories=len(hs) + len(hs2), states=st["distinct"] + st2["distinct"])]
+    rng = random.Random(seed)
+    jobs = []
+    ng = 2 if quick else 8
+    for i, cfg in enumerate(_rec_cfgs(seed + 1000, ng)):
+        pick = hs if not quick else rng.sample(hs, min(len(hs), 70))
+        pick2 = hs2 if not quick else rng.sample(hs2, min(len(hs2), 10))
+        m = ALL_MODES[i % 6]
+        jobs.append(dict(kind="pyfunc", module="harness.compiled_jobs", func="api_job", id=f"c09g{i}", cfg=cfg, seed=seed + i, source="record",
+                         histories_async=None, mode=m[0], prune=m[1], eps=i % 2,
+                         histories=[list(h) for h in (pick + pick2)], inits=[[-1, -1], [0, 2], [1, 0], [5, 50], [2, 4]], eager_every=10 if quick else 5,
+                         timeout=3000))
+        jobs[-1]["hist_src"] = [_hist_step(8), _hist_run(9)]
+    # the record source needs 'histories' for the async recording; keep API histories under another key
+    for j in jobs:
+        j["api_histories"] = j.pop("histories")
+        j["histories"] = j.pop("hist_src")
+    results = common.run_jobs(jobs, timeout=3300)
+    st_items = _collect(rep, results, "static")
+    run_items = _collect(rep, results, "runs")
+    _judge(rep, st_items, "RexSchedule", SCHED_CLAUSE_PROPS, {"C09"}, "schedule")
+    vs = _judge(rep, run_items, "RexRun", RUN_CLAUSE_PROPS, {"C09"}, "run")
+    npairs = 0
+    for res in results:
+        if not res.get("ok"):
+            continue
+        job = res["job"]
+        for c in res["checks"]:
+            rep.cov["evaluations"] += 1
+            if not c["ok"]:
+                rep.violation(dict(kind=c["kind"]), dict(kind="api_check", job={k: job[k] for k in ("id", "cfg", "seed", "mode", "prune")}, check=c),
+                              text=f"{job['id']}: {c}")
+        groups = {}
+        for d in res["digests"]:
+            groups.setdefault((tuple(d["nf"]), d["s0"]), []).append(d)
+        for key, ds in groups.items():
+            base = ds[0]
+            for d in ds[1:]:
+                npairs += 1
+                if d["digest"] != base["digest"]:
+                    rep.violation(dict(kind="api_purity"),
+                                  dict(kind="api_pair", job={k: job[k] for k in ("id", "cfg", "seed", "mode", "prune")}, a=base, b=d),
+                                  text=f"{job['id']}: histories {base['hist']} (jit={base['jit']}) and {d['hist']} (jit={d['jit']}) have the same normal form "
+                                       f"{list(key[0])} but leave different GraphStates")
+                else:
+                    rep.nontrivial((job["id"], tuple(base["hist"]), tuple(d["hist"]), d["jit"]))
+    for (job, res, t), v in zip(run_items, vs):
+        rep.sample(dict(trace=t["id"], ops=t["ops"], step0=t["step0"], eps=t["eps"], steps=len(t["log"]), verdict=v["verdict"]), limit=5)
+    rep.cov["pairs_compared_bitwise"] = npairs
+    rep.cov["rule"] = ("RexApi (TLC) enumerates every call history over {run, reset, step, step-with-override, rollout(1), rollout(2)} up to the bound with its "
+                       "normal form; each history is replayed on a real Graph (jitted; every k-th also eagerly): its probe log and final step/seq/state must be "
+                       "a run of RexRun's API layer, and all histories with the same normal form must leave bitwise identical GraphState pytrees; plus "
+                       "init() clipping / params override, vmapped batch = un-batched, full-trajectory rollout = carry-only. distinct = bitwise-compared pairs")
+    rep.assumptions += ["histories stay inside the horizon (at most max_steps partitions); behaviour beyond the horizon is not claimed"]
+    return rep.finish()
+
+
 def c06_compiled(rep, tier, seed):
-    rep.cov["compiled_part"] = "pending"
+    """Compiled half of C06: every run=True slot executes exactly once with its sequence number, masked slots and overridden supervisor steps never."""
+    quick = tier == "quick"
+
+    def runs_of(i, rng):
+        return [dict(eps=0, history=["rollout:99"], jit=True), dict(eps=1, history=["reset", "step", "stepo", "step", "stepo"], jit=True),
+                dict(eps=0, history=["run", "run"], jit=False)]
+
+    def modes_of(i):
+        return [ALL_MODES[(i * 2) % 6] + [{}], ALL_MODES[(i * 2 + 3) % 6] + [{}]] if quick else [m + [{}] for m in ALL_MODES]
+
+    jobs = _run_jobs_for(seed + 300, 2 if quick else 12, "c06c", runs_of, modes_of)
+    results, run_items, vs, metas = _run_campaign(rep, jobs, {"C06"})
+    n = 0
+    for (job, res, t), v in zip(run_items, vs):
+        if v["verdict"] == "accept":
+            rep.nontrivial(t["id"])
+            n += len(t["log"])
+    rep.cov["compiled_part"] = dict(runs=len(run_items), step_executions_checked=n,
+                                    rule="jitted rollout, jitted reset/step with overrides, un-jitted run under every supergraph mode: the probe log must "
+                                         "contain exactly the run=True slots of the executed partitions, each once, with the slot's sequence number")
+
+
+def c13(tier, seed):
+    from . import asyncchecks
+
+    rep = common.Report("C13", tier, seed)
+    quick = tier == "quick"
+    # threaded runtime: all flag combinations, truncation; every run must be a behaviour of the law and agree with the fully recorded run
+    jobs = asyncchecks.c13_async_jobs(tier, seed)
+    for j in jobs:
+        j["ref"] = False
+        j["fixed_gs_eps"] = 0
+    # truncated records cannot be timed by the law beyond the cut: they only take part in the cross comparison below
+    full_jobs = [j for j in jobs if not j.get("truncated")]
+    trunc_jobs = [j for j in jobs if j.get("truncated")]
+    res = engine.run_campaign(rep, full_jobs, {"C13"})
+    tres = common.run_jobs(trunc_jobs, timeout=900)
+    for r in tres:
+        if not r.get("ok"):
+            if r.get("timeout"):
+                rep.note(f"job {r['job'].get('id')} exceeded its budget")
+                continue
+            raise common.MachineryError(r.get("error", "")[-2000:])
+        for run in r["runs"]:
+            for t, m in zip(run["traces"], run["meta"]):
+                res.append((r["job"], run, t, m, dict(verdict="n/a", clause="-")))
+    # inertness: compare every run of a group with the group's first (fully recorded) run of the same episode:
+    # records on the common prefix, probe logs entirely
+    groups = {}
+    for job, run, t, m, v in res:
+        groups.setdefault((job["group"], m["eps"]), []).append((job, t, v))
+    cross = []
+    from .. import trace as tr
+
+    for gname, lst in groups.items():
+        base = lst[0][1]
+        for job, t, v in lst[1:]:
+            t2 = dict(t)
+            t2["id"] = t["id"] + "~vs~" + base["id"]
+            t2["ref"] = tr.as_ref(base)
+            t2["reflog"] = base["log"]
+            t2["flags"] = dict(t["flags"], truncated=bool(job.get("truncated")), tableonly=bool(job.get("truncated")))
+            cross.append((job, t2))
+    if cross:
+        vs, st = engine.validate_parallel([t for _, t in cross])
+        rep.add_tlc(st)
+        rep.cov["traces_validated_against_impl"] += len(cross)
+        for (job, t), v in zip(cross, vs):
+            if v["verdict"] != "accept":
+                props = engine.CLAUSE_PROPS.get(v["clause"], set()) | ({"C13"} if v["clause"].startswith(("Deterministic", "Inert")) else set())
+                if "C13" in props:
+                    rep.violation(dict(clause=v["clause"], kind="inert"), dict(kind="async_cross", job={k: job[k] for k in job if k != "runs"}, verdict=v),
+                                  text=f"{t['id']}: recording settings {job.get('record')} max_records={job.get('max_records')} changed the execution: {v['detail'][:600]}")
+                else:
+                    rep.note(f"{t['id']} rejected by {v['clause']} ({sorted(props)})")
+            else:
+                rep.nontrivial(t["id"])
+    # compiled runtime: record rows = what the probes saw; never-executed rows stay -1; with/without record same final state
+    full = dict(params=True, rng=True, inputs=True, state=True, output=True)
+
+    def runs_of(i, rng):
+        combos = [full, dict(state=True, output=True), dict(rng=True), dict(inputs=True, params=True), None]
+        return [dict(eps=e, history=["rollout:99"], record=c) for e in (0, 1) for c in (combos if not quick else combos[:3] + [None])]
+
+    def modes_of(i):
+        return [ALL_MODES[(i * 2) % 6] + [{}]] if quick else [ALL_MODES[(i + j) % 6] + [{}] for j in range(3)]
+
+    cjobs = _run_jobs_for(seed + 400, 2 if quick else 8, "c13c", runs_of, modes_of)
+    for j in cjobs:
+        j["digest_no_aux"] = True
+    results, run_items, vs, metas = _run_campaign(rep, cjobs, {"C13"})
+    for res in results:
+        if not res.get("ok"):
+            continue
+        by = {}
+        for t, d in zip(res["runs"], res.get("digests", [])):
+            by.setdefault((t["id"].rsplit("/r", 1)[0], t["eps"]), []).append((t["id"], d))
+        for key, lst in by.items():
+            for tid_, d in lst[1:]:
+                if d != lst[0][1]:
+                    rep.violation(dict(kind="inert_compiled"), dict(kind="compiled_pair", job={k: res["job"][k] for k in ("id", "cfg", "seed")}, a=lst[0][0], b=tid_),
+                                  text=f"{tid_} and {lst[0][0]}: final GraphState (without aux['record']) differs with the record settings")
+                else:
+                    rep.nontrivial((tid_, "digest"))
+    for (job, res, t), v in zip(run_items, vs):
+        rep.sample(dict(trace=t["id"], has_record="rec" in t, steps=len(t["log"]), verdict=v["verdict"]), limit=5)
+    rep.cov["rule"] = ("threaded runtime: the same graph, seed and call history under all 32 combinations of the five record flags (quick: 6) and "
+                       "max_records in {1, 3}: each record must be a behaviour of RexLaw (Record* clauses: state recorded before step k+1 = state "
+                       "returned by step k, recorded windows / outputs / rng = what the probe saw) and must agree with the fully recorded run on the common "
+                       "prefix, the probe logs entirely (Inert*). compiled runtime: aux['record'] rows = the probe log for executed steps, -1 for never "
+                       "executed rows (RexRun RecordRow / RecordNeverExecutedRow); final GraphState minus aux['record'] identical with and without recording")
+    rep.assumptions += ["compiled records are only taken on graphs whose node kinds all occur in the supergraph (Graph.init_record raises KeyError otherwise; outside the properties)"]
+    return rep.finish()
